@@ -29,29 +29,43 @@ from harness import core
 
 # ----------------------------------------------------------------------------- environment
 class Env:
-    def __init__(self):
+    """The public API is required; internals the harness observes through are optional."""
+
+    def __init__(self, ck=None):
         import numpy as np
         import onnx
         import spox
-        import spox._fields
-        import spox._node
-        import spox._scope
-        import spox._standard
-        import spox._type_system as ts
+        import spox.opset.ai.onnx.v17 as op17
         from spox import argument
 
-        self.np, self.onnx, self.spox, self.ts = np, onnx, spox, ts
+        self.np, self.onnx, self.spox = np, onnx, spox
         self.argument = argument
-        import spox.opset.ai.onnx.v17 as op17
-
-        self.op17 = op17
-        self.Scope = spox._scope.Scope
-        self.StandardNode = spox._standard.StandardNode
-        self.Node = spox._node.Node
         self.Var = spox.Var
-        self.VarFieldKind = spox._fields.VarFieldKind
+        self.op17 = op17
+        self.missing = []
+
+        def opt(name, getter):
+            try:
+                return getter()
+            except Exception as e:  # noqa: BLE001
+                self.missing.append(f"{name}: {type(e).__name__}: {e}")
+                return None
+
+        self.ts = opt("spox._type_system", lambda: __import__("spox._type_system", fromlist=["Tensor"]))
+        self.Scope = opt("spox._scope.Scope", lambda: __import__("spox._scope", fromlist=["Scope"]).Scope)
+        self.StandardNode = opt("spox._standard.StandardNode",
+                                lambda: __import__("spox._standard", fromlist=["StandardNode"]).StandardNode)
+        self.Node = opt("spox._node.Node", lambda: __import__("spox._node", fromlist=["Node"]).Node)
+        self.VarFieldKind = opt("spox._fields.VarFieldKind",
+                                lambda: __import__("spox._fields", fromlist=["VarFieldKind"]).VarFieldKind)
+        if ck is not None:
+            for m in self.missing:
+                ck.broken("correspondence", "spox internal not observable", m)
         self._mods = {}
         self._force = {}
+
+    def tensor(self, dtype, shape):
+        return self.spox.Tensor(dtype, shape)
 
     def module(self, pymod):
         if pymod not in self._mods:
@@ -529,10 +543,11 @@ def run_case1(env: Env, fn, schema, case, prefer_seq):
     var = first_var(env, out)
     if var is None:
         return {**res, "status": "no-output", "err": repr(out)[:100]}
-    node = var._op
-    scope = env.Scope()
-    scope.node[node] = "n"
+    # from here on spox internals are used to *observe* the node: trouble is "unobservable", no verdict
     try:
+        node = var._op
+        scope = env.Scope()
+        scope.node[node] = "n"
         for v in node.inputs:
             if v is not None:
                 if id(v) not in names:
@@ -545,11 +560,11 @@ def run_case1(env: Env, fn, schema, case, prefer_seq):
         protos = node.to_onnx(
             scope, build_subgraph=lambda n, key, g: env.onnx.helper.make_graph([], key, [], [])
         )
+        if len(protos) != 1:
+            return {**res, "status": "not-one-node", "err": str(len(protos)), "node": node}
+        return {**res, "node": node, "proto": protos[0], "out": out}
     except Exception as e:  # noqa: BLE001
-        return {**res, "status": "to_onnx-raised", "err": f"{type(e).__name__}: {e}", "node": node}
-    if len(protos) != 1:
-        return {**res, "status": "not-one-node", "err": str(len(protos)), "node": node}
-    return {**res, "node": node, "proto": protos[0], "out": out}
+        return {**res, "status": "unobservable", "err": f"{type(e).__name__}: {e}"}
 
 
 def attr_value_matches(env: Env, ap, sa, value, key) -> bool:
@@ -614,6 +629,8 @@ def judge(env: Env, mid, op, version, schema, case, r, cls=None):
     if st == "missing-argument":
         out.append((f"{mid}:{op}:signature:extra-required",
                     f"constructor demands arguments the schema does not require: {r['err']}"))
+        return out
+    if st == "unobservable":
         return out
     if st == "optional-outputs-not-omittable":
         out.append((f"{mid}:{op}:outputs:optional-not-omittable",
@@ -732,10 +749,10 @@ PUBLIC_SPECS = [
 
 def public_case(env: Env, fn, schema, spec, present, attrs_given, mod=None):
     """constructor -> spox.build -> the operator's NodeProto in the ModelProto (public API only)"""
-    np, ts = env.np, env.ts
+    np = env.np
 
     def mk(t):
-        return env.argument(ts.Tensor(getattr(np, t[0] if t[0] != "bool" else "bool_"), t[1]))
+        return env.argument(env.tensor(getattr(np, t[0] if t[0] != "bool" else "bool_"), t[1]))
 
     args, build_in = {}, {}
     nvar = None
@@ -979,9 +996,9 @@ def internal_oracle(ck, env: Env, info, stats, extra):
     pairs = {(p["module"], p["op"]): p for p in (info or {}).get("pairs", [])}
     cache = {}
     reqs, req_meta = [], []
-    can_call = True
+    can_call = env.Node is not None and env.StandardNode is not None and env.Scope is not None and env.ts is not None
     for attr in ("inference", "validate_types", "to_onnx"):
-        if not callable(getattr(env.Node, attr, None)):
+        if env.Node is not None and not callable(getattr(env.Node, attr, None)):
             ck.broken("correspondence", f"Node.{attr} not observable", "the call oracle needs it; falling back to reflection + public-API oracle")
             can_call = False
     unobs = 0
@@ -1029,6 +1046,11 @@ def internal_oracle(ck, env: Env, info, stats, extra):
                     ck.count(("call", mid, op, tuple(case["present"]), case["variadic"], tuple(case["attrs"]), case["mode"], case.get("variant", 0)))
                     for key, what in judge(env, mid, op, version, schema, case, r, cls):
                         ck.failure(key, what, {"module": mid, "op": op, "kind": "call", "case": case})
+                    if r["status"] == "unobservable":
+                        unobs += 1
+                        if unobs <= 3:
+                            ck.broken("correspondence", f"NodeProto of {mid}:{op} not observable through Node.to_onnx", r["err"])
+                        continue
                     if r["status"] != "ok":
                         stats["raised"] += 1
                         continue
@@ -1090,9 +1112,9 @@ def run(ck: core.Check):
              "attr_values_checked": 0, "dtype_attrs": 0, "graph_attr_calls": 0, "distinct_ctor_schema": 0,
              "public_cases": 0}
     try:
-        env = Env()
+        env = Env(ck)
     except Exception as e:  # noqa: BLE001
-        ck.broken("correspondence", "spox internals needed by the harness are not importable", f"{type(e).__name__}: {e}")
+        ck.broken("correspondence", "spox (public API) not importable", f"{type(e).__name__}: {e}")
         env = None
     if env is not None and info is not None:
         try:
